@@ -287,6 +287,14 @@ def build_input(kind, rng, tmp):
         d2.write(f2)
         d3.write(f3)
         three = rng.random() < 0.5
+        if kind == "stats" and rng.random() < 0.5:
+            # phase sets with names (PS declared as String, as 10x / GIAB files do)
+            d1.meta = [m.replace("ID=PS,Number=1,Type=Integer", "ID=PS,Number=1,Type=String") for m in d1.meta]
+            for r in d1.records:
+                for call in r["calls"]:
+                    if call.get("PS", ".") not in (".", None):
+                        call["PS"] = "set_%s_%s" % (r["chrom"], call["PS"])
+            d1.write(f1)
 
         def make(outdir):
             if kind == "compare":
